@@ -535,3 +535,63 @@ bucketize = Contract('bucketize', setup=bk_setup, requires=bk_requires, ensures=
                      hints=bk_hint, variants=['plain,nofilter', 'transform,filter'])
 bucketize.ghost_mod = ['slot', 'back']
 CONTRACTS_UNIQUE['bucketize'] = bucketize
+
+
+# ---------------------------------------------------------------------------------------------
+# partition(src, key): (items whose key is True, items whose key is False), each in input order - a wrapper of bucketize.
+bucketize.returns = lambda c: SRef(Buckets, c.st.fresh.const('bucketized', z3.IntSort()))
+
+
+def pt_setup(eng, st, variant=None):
+    src = SVal(z3.Const('arg_src', Val))
+    eng.stable_lists.add(src.t.get_id())
+    st.ghost['slot'] = z3.Const('bk_slot_init', IntArr)
+    st.ghost['back'] = z3.Const('bk_back_init', IntArr2)
+    return dict(src=src, key=SVal(z3.Const('arg_key', Val)))
+
+
+def pt_ensures(c):
+    r = c.result
+    from pyvc.values import STuple, SLit
+    if not (isinstance(r, STuple) and len(r.items) == 2):
+        return [('returns a pair of lists', z3.BoolVal(False))]
+    n = c.eng.f_oseq_len(c.a('src'))
+    le, ll = c.arr(Bucket, 'elems'), c.arr(Bucket, 'len')
+    slot, back = c.g('slot'), c.g('back')
+    j, s, s2 = z3.Ints('j s s2')
+    out = []
+    for name, lst, kval in (('true', r.items[0], c.eng.f_int2val(z3.IntVal(1))), ('false', r.items[1], c.eng.f_int2val(z3.IntVal(0)))):
+        if isinstance(lst, SLit) and lst.kind == 'list' and not lst.items:
+            out.append(('the %s list is the empty default only when no item has the key %s' % (name, name.capitalize()),
+                        z3.ForAll([j], z3.Implies(z3.And(0 <= j, j < n), bk_key(c, j) != kval))))
+            continue
+        if not isinstance(lst, SRef):
+            out.append(('returns a pair of lists', z3.BoolVal(False)))
+            continue
+        L = lst.t
+        bj = z3.Select(z3.Select(back, L), s)
+        out += [
+            ('every item whose key is %s sits in the %s list, at its ghost slot' % (name.capitalize(), name), z3.ForAll([j], z3.Implies(
+                z3.And(0 <= j, j < n, bk_key(c, j) == kval), z3.And(
+                    0 <= z3.Select(slot, j), z3.Select(slot, j) < z3.Select(ll, L),
+                    z3.Select(z3.Select(le, L), z3.Select(slot, j)) == c.eng.f_oseq_item(c.a('src'), j),
+                    z3.Select(z3.Select(back, L), z3.Select(slot, j)) == j)))),
+            ('every slot of the %s list holds exactly one item whose key is %s; slots are in input order' % (name, name.capitalize()), z3.And(
+                z3.Select(ll, L) >= 0,
+                z3.ForAll([s], z3.Implies(z3.And(0 <= s, s < z3.Select(ll, L)), z3.And(0 <= bj, bj < n, bk_key(c, bj) == kval,
+                                                                                       z3.Select(slot, bj) == s))),
+                z3.ForAll([s, s2], z3.Implies(z3.And(0 <= s, s < s2, s2 < z3.Select(ll, L)),
+                                              z3.Select(z3.Select(back, L), s) < z3.Select(z3.Select(back, L), s2)))))]
+    return out
+
+
+def pt_requires(c):
+    k = c.a('key')
+    return [('key is a callable (not a str, not a list)', z3.And(k != NONE, c.eng.f_callable(k), z3.Not(isa(k, z3.StringVal('list'))),
+                                                              z3.Not(isa(k, z3.StringVal('str')))))]
+
+
+partition = Contract('partition', setup=pt_setup, requires=pt_requires, ensures=pt_ensures,
+                     modifies=lambda c: list(BK_KEYS), variants=['callable'])
+partition.ghost_mod = ['slot', 'back']
+CONTRACTS_UNIQUE['partition'] = partition
